@@ -121,7 +121,7 @@ CHECKS = {
                        "checked call by call against a model. Behaviour across restarts is not claimed."),
         "level_note": "trusted: kani-compiler, CBMC, CaDiCaL, the reference queue in harness/mem.rs; <= 4 retained records, payloads <= 3 bytes, concrete positions",
         "filters": ["c05_", "c18_iso_q"],
-        "quick": {"harnesses": [("real", "c05_obs*_q*"), ("real", "c05_ring_wrap_q"), ("real", "c05_big_q*"), ("real", "c05_range_sym_q*"), ("real", "c18_iso_q_0*"), ("real", "c05_log_q*")], "jobs": 14, "timeout": 1200},
+        "quick": {"harnesses": [("real", "c05_obs*_q*"), ("real", "c05_ring_wrap_q"), ("real", "c05_big_q*"), ("real", "c05_range_sym_q*"), ("real", "c18_iso_q_0*"), ("real", "c05_log_q*"), ("real", "c05_log2_q*")], "jobs": 14, "timeout": 1200},
         "thorough": {"harnesses": [("real", "c05_obs*"), ("real", "c05_ring_wrap_q"), ("real", "c05_big_q*"), ("real", "c05_range_sym_*"), ("real", "c18_iso_q_0*"), ("real", "c05_log_*")], "jobs": 16, "timeout": 2400},
         "rule": ("case = one operation script (appends of 0..3 symbolic bytes at next / +1 / +2 / rejected position, truncations at 8 "
                  "relative targets) or one symbolic-bounds range query on a constructed state; lock step with the reference; "
@@ -212,7 +212,7 @@ CHECKS = {
                        "entries written by garbage collection, and is 0 for no-op and rejected calls."),
         "level_note": "trusted: kani-compiler, CBMC, CaDiCaL; checksum oracle stub; cursor-only block device CurW; Serializable producing n zero bytes",
         "filters": ["c15_real", "c07_rt_qf", "c06_gc", "c13_one"],
-        "quick": {"harnesses": [("real", "c15_real_q*"), ("real", "c15_real_frame_q"), ("16", "c07_rt_qf*"), ("real", "c06_gc_q*"), ("real", "c13_one_q_00[0-6]")], "jobs": 14, "timeout": 1200},
+        "quick": {"harnesses": [("real", "c15_real_q*"), ("real", "c15_real_frame_q"), ("16", "c07_rt_qf*"), ("real", "c06_gc_q*"), ("real", "c06_gc2b_q*"), ("real", "c13_one_q_00[0-6]")], "jobs": 14, "timeout": 1200},
         "thorough": {"harnesses": [("real", "c15_real_*"), ("16", "c07_rt_qf*"), ("real", "c06_gc*"), ("real", "c13_one_q_0*")], "jobs": 8, "timeout": 3000, "solvers": ["cadical"]},
         "rule": ("real geometry: one query with symbolic (start, len); small geometry: 18 (alignment, length, follower) cases with real bytes; "
                  "non-trivial witnesses are cover properties (>= 4 frames, padding, empty first frame, exact block end, empty entry)"),
